@@ -164,7 +164,7 @@ func (fr *Frame) atCall(in ssa.Instruction, cc *ssa.CallCommon, st *State, after
 		case "assume":
 			g := env.evalBool(ac.Expr, ac.Src)
 			fr.p.assume(st.Guard, g)
-			fr.p.assumedLib["assumed at call "+name+": "+ac.Src] = true
+			fr.p.assumedLib["assumed in "+fr.p.eng.funcDisplayName(fr.fn)+" at call "+name+": "+ac.Src] = true
 		case "ghost":
 			env.where = ac.Src
 			v, t := env.eval(ac.Expr)
